@@ -339,7 +339,7 @@ META = {
         "design_ref": "DESIGN.md §7 C05", "note": _TRUST,
     },
     "C11": {
-        "text": "Bounded symbolic model checking of ParseProgram on arbitrary token buffers (27 parser contexts x <= 2/3 tokens of solver-quantified type, flags and positions) in all four mode combinations (modes are solver variables): termination within the instruction budget, no panic, error value iff error list non-empty, no nil or typed-nil entries in statement lists, every error range is a token range, and error-free trees have all mandatory children and compile in four configurations without panicking.",
+        "text": "Bounded symbolic model checking of ParseProgram on arbitrary token buffers (27 parser contexts x <= 2 tokens of solver-quantified type, flags and positions; also after an earlier plugin-configured job, and on numeric tokens the parser must validate) in all four mode combinations (modes are solver variables): termination within the instruction budget, no panic, error value iff error list non-empty, no nil or typed-nil entries in statement lists, every error range is a token range, and error-free trees have all mandatory children and compile in four configurations without panicking.",
         "design_ref": "DESIGN.md §7 C11", "note": _TRUST,
     },
     "C12": {
